@@ -47,6 +47,15 @@ type Ctx struct {
 	assume     []string
 	notExh     []string
 	guards     []string
+
+	// Disturb(k) runs the k-th disturbance (modulo their number); DisturbName
+	// names it for violation details.
+	Disturb       func(k int64)
+	DisturbName   func(k int64) string
+	DisturbEvery  int64
+	disturbOff    atomic.Int32
+	lastDisturb   atomic.Int64
+	replayDisturb int64
 }
 
 type violation struct {
@@ -59,7 +68,8 @@ type violation struct {
 
 // Start reads the environment set up by ./run.
 func Start(id, level string) *Ctx {
-	c := &Ctx{ID: id, Level: level, start: time.Now()}
+	c := &Ctx{ID: id, Level: level, start: time.Now(), replayDisturb: -1, DisturbEvery: 997}
+	c.lastDisturb.Store(-1)
 	c.Tier = os.Getenv("VERIF_TIER")
 	if c.Tier != "thorough" {
 		c.Tier = "quick"
@@ -143,6 +153,15 @@ func (c *Ctx) Violation(sig string, detail map[string]interface{}) {
 		}
 		return
 	}
+	if c.Disturb != nil && c.ReplayPath == "" {
+		if k := c.lastDisturb.Load(); k >= 0 {
+			// (kept so that a replay can put the same operation in front of the case)
+			detail["last_disturbance"] = k
+			if c.DisturbName != nil {
+				detail["last_disturbance_name"] = c.DisturbName(k)
+			}
+		}
+	}
 	sz := 0
 	if b, err := json.Marshal(detail); err == nil {
 		sz = len(b)
@@ -180,8 +199,38 @@ func (c *Ctx) SigCount(sig string) int64 {
 	return 0
 }
 
-// Eval counts one evaluated case.
-func (c *Ctx) Eval() { c.Evals.Add(1) }
+// Eval counts one evaluated case. With a disturbance installed (package
+// disturb) every DisturbEvery-th call first runs one of a rotating list of
+// unrelated library operations on objects of their own - broken files read,
+// writes that fail, lines cut short, sysex left open: whatever these leave
+// behind in the library must not change the case that follows.
+func (c *Ctx) Eval() {
+	n := c.Evals.Add(1)
+	if c.Disturb == nil || c.disturbOff.Load() != 0 {
+		return
+	}
+	if c.replayDisturb >= 0 {
+		c.Disturb(c.replayDisturb)
+		return
+	}
+	if c.ReplayPath == "" && n%c.DisturbEvery == 0 {
+		k := n / c.DisturbEvery
+		c.lastDisturb.Store(k)
+		c.Disturb(k)
+	}
+}
+
+// DisturbOff / DisturbOn bracket a stretch without disturbances.
+func (c *Ctx) DisturbOff() { c.disturbOff.Add(1) }
+func (c *Ctx) DisturbOn()  { c.disturbOff.Add(-1) }
+
+// PauseDisturb runs f without disturbances (explorations under a controlled
+// scheduler own every step of their threads).
+func (c *Ctx) PauseDisturb(f func()) {
+	c.disturbOff.Add(1)
+	defer c.disturbOff.Add(-1)
+	f()
+}
 
 // Nontrivial registers a distinct non-trivial case by key.
 func (c *Ctx) Nontrivial(key string) {
@@ -367,6 +416,11 @@ func (c *Ctx) LoadReplay() map[string]interface{} {
 	if err := json.Unmarshal(b, &m); err != nil {
 		fmt.Fprintln(os.Stderr, "bad replay file:", err)
 		os.Exit(2)
+	}
+	if k, ok := m["last_disturbance"].(float64); ok {
+		// the case was found with this operation before it: every case of the
+		// replay is preceded by it
+		c.replayDisturb = int64(k)
 	}
 	return m
 }
